@@ -2,7 +2,7 @@
 #   leg A  model checking of the implementation-shaped model against the property-level spec
 #   leg B  TLC-generated behaviours replayed through the real library
 #   leg C  randomized behaviours of the real library validated against the trace specification
-import json, os, random, time, hashlib
+import re, json, os, random, time, hashlib
 from concurrent.futures import ThreadPoolExecutor
 from vlib import *
 
@@ -1090,35 +1090,43 @@ def run_robust_base(idx, base, wd, profile):
     write_ndjson(bp, [base])
     exe = build_harness(profile)
     rc, out = run([exe, "robust-run", bp, tp], timeout=5400)
-    hung = rc == 97
-    crashed = rc != 0 and not hung
-    if hung:
-        # an execution did not return within the watchdog's limit: the worker wrote it to <trace>.hang and ended
-        good = []
-        for l in open(tp, errors="replace"):
+    # A worker that dies (abort on a failed allocation, stack overflow, kill) or is ended by the
+    # watchdog (code 97: an execution that does not return) loses the rest of its base.  The input in
+    # flight is identified (re-run with per-execution echo), recorded as a crash / hang event, and
+    # the base is run again without it -- up to 6 times -- so that the other executions are still made.
+    crash_events, skip, crash_input, crashed = [], [], None, False
+    for attempt in range(6):
+        if rc == 0:
+            break
+        crashed = True
+        if rc == 97:
             try:
-                json.loads(l)
-                good.append(l if l.endswith("\n") else l + "\n")
-            except ValueError:
-                pass
-        try:
-            hev = json.load(open(tp + ".hang"))
-        except (OSError, ValueError):
-            raise ToolError("worker of base %d ended with the watchdog's code but left no record" % idx)
-        with open(tp, "w") as f:
-            f.writelines(good)
-            f.write(json.dumps({"e": "reset", "id": "base-%d" % idx}) + "\n")
-            f.write(json.dumps(hev) + "\n")
+                hev = json.load(open(tp + ".hang"))
+            except (OSError, ValueError):
+                raise ToolError("worker of base %d ended with the watchdog's code but left no record" % idx)
+            crash_events.append(hev)
+            crash_input = crash_input or hev.get("input")
+            skip.append(hev["digest"])
+        else:
+            cur = tp + ".cur"
+            env = {"MP4V_EACH": "1", "MP4V_CUR": cur}
+            if skip:
+                env["MP4V_SKIP"] = ",".join(skip)
+            rc2, out2 = run([exe, "robust-run", bp, tp + ".each"], timeout=5400, env=env)
+            last = [l for l in out2.split("\n") if l.startswith("EACH ")][-1:] or ["EACH ?"]
+            try:
+                ci = json.load(open(cur))
+            except (OSError, ValueError):
+                ci = None
+            crash_input = crash_input or ci
+            am = re.search(r"memory allocation of (\d+) bytes failed", out + out2)
+            crash_events.append({"e": "crash", "signal": rc, "last": last[0], "alloc": min(int(am.group(1)), 0x7fffffff) if am else 0})
+            if last[0] == "EACH ?":
+                break
+            skip.append(last[0].split()[1])
+        rc, out = run([exe, "robust-run", bp, tp], timeout=5400, env={"MP4V_SKIP": ",".join(skip)})
     if crashed:
-        # the worker died (abort / stack overflow / kill): find the input it was executing
-        cur = tp + ".cur"
-        rc2, out2 = run([exe, "robust-run", bp, tp + ".each"], timeout=5400, env={"MP4V_EACH": "1", "MP4V_CUR": cur})
-        last = [l for l in out2.split("\n") if l.startswith("EACH ")][-1:] or ["?"]
-        try:
-            crash_input = json.load(open(cur))
-        except (OSError, ValueError):
-            crash_input = None
-        # the dying worker may have left a partial last line
+        # a still-dying worker may have left a partial last line
         good = []
         for l in open(tp, errors="replace"):
             try:
@@ -1129,12 +1137,13 @@ def run_robust_base(idx, base, wd, profile):
         with open(tp, "w") as f:
             f.writelines(good)
             f.write(json.dumps({"e": "reset", "id": "base-%d" % idx}) + "\n")
-            f.write(json.dumps({"e": "crash", "signal": rc, "last": last[0]}) + "\n")
+            for ev in crash_events:
+                f.write(json.dumps(ev) + "\n")
     st = {}
     for l in out.strip().split("\n"):
         if l.startswith("{"):
             st = json.loads(l)
-    if not crashed and "phases" in st and base.get("plan"):
+    if rc == 0 and "phases" in st and base.get("plan"):
         pl, ph = base["plan"], st["phases"]
         if (pl.get("pairs", 0) > 0 and len(base.get("fields", [])) >= 2 and ph[2] == 0) or (pl.get("havoc", 0) > 0 and ph[3] == 0) \
                 or (pl.get("field_singles") and ph[1] == 0):
